@@ -172,7 +172,8 @@ func canStartSignedNumberAfter(r rune) bool {
 	switch r {
 	case 0, ' ', '\t', '\n', '\r',
 		'(', '[', '{', ',', ';', ':',
-		'+', '-', '*', '/', '<', '>', '=', '!', '&', '|':
+		'+', '-', '*', '/', '<', '>', '=', '!', '&', '|',
+		'^', '~', '@', '%': // reader prefixes: ^-2 ~-2 ~@-2 %-2
 		return true
 	default:
 		return false
